@@ -46,6 +46,7 @@ fn main() {
         ("search", "C03") => c03::search(seed, n),
         ("search", "C07") => c07::search(seed, n),
         ("corr", "C07") => c07::corr(seed, n),
+        ("corr", "C20") => c20::corr(seed, n),
         ("corr", "C03") => c03::corr(seed, n),
         ("corr", "C14") => c14::corr(seed, n),
         ("search", "C11") => c11::search(seed, n),
